@@ -352,7 +352,7 @@ class BARTMAP(BaseEstimator, BiclusterMixin):
 
         """
         k = extra["k"]
-        for cluster_b in range(len(self.module_b.W)):
+        for cluster_b in range(self.module_b.n_clusters):
             if self.match_criterion_bin(self.X, k, cluster_b, params):
                 return True
         return False
